@@ -305,7 +305,7 @@ func errClass(err error) string {
 		return "invalid-uuserid"
 	}
 	return "other:" + strings.Map(func(r rune) rune {
-		if r == ' ' || r == '\n' {
+		if r <= ' ' || r > '~' {
 			return '_'
 		}
 		return r
